@@ -115,14 +115,15 @@ func vLoadKeys() (vKeys, error) {
 // ---------------------------------------------------------------- result
 
 type vResult struct {
-	Violations []string
-	Infra      []string
-	Labels     []string
-	Nontrivial bool
-	Drained    bool
-	WallMs     int64
-	Summary    map[string]interface{}
-	artifact   string
+	Violations    []string
+	Infra         []string
+	Labels        []string
+	Nontrivial    bool
+	Drained       bool
+	WallMs        int64
+	Summary       map[string]interface{}
+	ProbeMedianUs int64
+	artifact      string
 }
 
 type vRunner struct {
@@ -207,7 +208,7 @@ func vNewRunner(sc *vScenario) (*vRunner, error) {
 		genStart: map[int]time.Time{}, genStartSq: map[int]int64{},
 		vms: map[cloud.InstanceID]*vVMInfo{}, ctrs: map[string]*vCtrTrack{},
 		decisions: map[string]*vDecision{}, inherited: map[string]map[vProcRef]bool{},
-		heldNow: map[cloud.InstanceID]bool{},
+		heldNow:  map[cloud.InstanceID]bool{},
 		inflight: map[string]int{}, inflightDec: map[string]*vDecision{},
 		rng:     rand.New(rand.NewSource(sc.Seed ^ 0x5eed)),
 		deadGen: -1, curGen: -1,
@@ -282,7 +283,45 @@ func (e *vExecutor) Execute(env map[string]string, cmd string, stdin io.Reader) 
 			m.mu.Unlock()
 		}()
 	}
+	if strings.HasSuffix(cmd, "crunch-run --list") {
+		t0 := time.Now()
+		stdout, stderr, err := e.Executor.Execute(env, cmd, stdin)
+		if err == nil {
+			m := e.m
+			m.mu.Lock()
+			if len(m.probeDur) < 4096 {
+				m.probeDur = append(m.probeDur, vProbeDur{})
+			}
+			m.probeDur[m.probeDurNext%len(m.probeDur)] = vProbeDur{at: time.Now(), dur: time.Since(t0)}
+			m.probeDurNext++
+			m.mu.Unlock()
+		}
+		return stdout, stderr, err
+	}
 	return e.Executor.Execute(env, cmd, stdin)
+}
+
+type vProbeDur struct {
+	at  time.Time
+	dur time.Duration
+}
+
+// probeLatency returns the number and the median duration of successful
+// "crunch-run --list" round trips (as the pool saw them) completed since t.
+func (m *vMonitor) probeLatency(since time.Time) (int, time.Duration) {
+	m.mu.Lock()
+	var ds []time.Duration
+	for _, p := range m.probeDur {
+		if p.at.After(since) {
+			ds = append(ds, p.dur)
+		}
+	}
+	m.mu.Unlock()
+	if len(ds) == 0 {
+		return 0, 0
+	}
+	sort.Slice(ds, func(i, j int) bool { return ds[i] < ds[j] })
+	return len(ds), ds[len(ds)/2]
 }
 
 type vGenDriver struct {
@@ -645,8 +684,20 @@ func (rn *vRunner) run(lim vLimits) *vResult {
 				ref = quiet
 			}
 			if now.Sub(ref) > lim.stuckAfter {
+				// The pool discards the result of every probe that overlaps
+				// a sync (updateWorker stamps wkr.updated; probeAndUpdate
+				// then "waits for the next probe"), so its design assumes
+				// probes to be faster than SyncInterval. On a starved
+				// machine (ssh round trips slower than the 10 ms the test
+				// configuration uses) no worker ever becomes idle and
+				// nothing moves: that is the environment, not the property.
+				syncIv := time.Duration(rn.cluster.Containers.CloudVMs.SyncInterval)
+				nprobe, med := m.probeLatency(now.Add(-lim.stuckAfter))
 				if now.Sub(lastEntriesAt) > 5*time.Second {
 					infra("VERIF-INFRA: state unchanged for %s but the scheduler has not read the queue for %s (scheduler goroutine not alive?)", now.Sub(ref), now.Sub(lastEntriesAt))
+				} else if o.nvm > 0 && (nprobe < 20 || med > syncIv/2) {
+					infra("VERIF-INFRA: state unchanged for %s, but this process is too slow for the configured intervals: %d successful --list probes in that time, median round trip %s, SyncInterval %s (probe results overlapping a sync are discarded by design) - inconclusive",
+						now.Sub(ref).Round(time.Millisecond), nprobe, med, syncIv)
 				} else {
 					m.mu.Lock()
 					m.violate("[stuck] STUCK: observable state (container states, instance set, process tables) unchanged for %s while the scheduler is alive: %d/%d containers final, %d on hold, pending %v, %d instances exist, %d live processes, by state %v",
@@ -693,8 +744,11 @@ func (rn *vRunner) finish(res *vResult, o vObs, start time.Time) *vResult {
 	bugs := append([]string(nil), m.bugs...)
 	res.Infra = append(res.Infra, m.harnessPanics...)
 	m.bugMu.Unlock()
+	nprobe, med := m.probeLatency(time.Time{})
 	m.mu.Lock()
 	defer m.mu.Unlock()
+	res.ProbeMedianUs = med.Microseconds()
+	_ = nprobe
 	for _, b := range bugs {
 		// the stub's own detector: a crunch-run found its slot in the VM's
 		// process table taken over by another pid, i.e. a second process for
@@ -733,7 +787,7 @@ func (rn *vRunner) finish(res *vResult, o vObs, start time.Time) *vResult {
 		"kills": m.killsSeen, "crashes_after_running": crashes, "lock_fails": m.lockFails, "restarts_with_live_procs": rn.restarts,
 		"generations": rn.gen + 1, "excused_overlaps": m.excused, "quota_errors": m.quotaErrs, "vm_classes": classes,
 		"containers_started_more_than_once": multi, "final": o.final, "held": o.held, "instances_left": o.nvm, "wall_ms": res.WallMs,
-		"events": len(m.events), "by_state": o.byState,
+		"events": len(m.events), "by_state": o.byState, "probe_median_us": med.Microseconds(),
 	}
 	lab := func(cond bool, l string) {
 		if cond {
